@@ -202,6 +202,7 @@ func init() {
 			c.rulePurity("E2d.pure", []string{"pkg/packet/bgp"}, 500)
 			c.ruleEmittedLength("E3.emitted-length", []string{"pkg/packet/bgp"}, 3)
 			c.ruleAddPathDirection("E6.addpath-direction")
+			c.ruleGuardOrder("E3.guard-order", []string{"pkg/packet/bgp"}, 3)
 		},
 	})
 	register(&Check{
@@ -214,12 +215,14 @@ func init() {
 	})
 	register(&Check{
 		ID: "C19",
-		Expl: "Decides for pkg/packet/{mrt,bmp,rtr,bfd} and pkg/zebra: (E2c) decoders never write their input buffer nor anything that retains a part of it; (E4.decode-produces) every message/TLV type with a serialiser is allocated on the decode side; (E6.split) stream splitters compare len(input) — not cap — with the very bound they slice by.",
+		Expl: "Decides for pkg/packet/{mrt,bmp,rtr,bfd} and pkg/zebra: (E2c) decoders never write their input buffer nor anything that retains a part of it; (E4.decode-produces) every message/TLV type with a serialiser is allocated on the decode side; (E6.split) stream splitters compare len(input) — not cap — with the very bound they slice by; (E3.guard-order) the writer and the reader of one structure test the same flag constants in the same order around their wire-touching statements and under the same protocol versions (finite version domain); (E4.mrt-rib-families) the MRT reader, Rib.Serialize and the dump writer agree on which families have AFI/SAFI-specific RIB subtypes.",
 		Not: "Crash-freedom and termination of the decoders, and round-trip equality, are value-level and not decided. ZAPI field symmetry is excluded (request and response bodies are directional).",
 		Run: func(c *Ctx) {
 			c.ruleInputImmutable("E2c.input", []string{"pkg/packet/mrt", "pkg/packet/bmp", "pkg/packet/rtr", "pkg/packet/bfd", "pkg/zebra"}, 60)
 			c.ruleDecodeProduces("E4.decode-produces", []string{"pkg/packet/bmp", "pkg/packet/mrt", "pkg/packet/rtr"}, 20)
 			c.ruleSplitters()
+			c.ruleGuardOrder("E3.guard-order", []string{"pkg/zebra", "pkg/packet/mrt", "pkg/packet/bmp", "pkg/packet/rtr", "pkg/packet/bfd"}, 5)
+			c.ruleMRTRibFamilies()
 		},
 	})
 }
